@@ -60,6 +60,16 @@ def c02(tier, seed):
         S("Tomato", "Paddy", seed=seed + 12, regime="wet", fallow={"bunds": True, "z_bund": 0.1, "bund_water": 80}, off_season=True, lead=25,
           iwc={"value": ["SAT", "SAT"], "depth_layer": [1, 2]}),
     ]
+    # nine consecutive wet days on thin compartments over thick ones with an impeding subsoil (water backs up to the surface through several
+    # saturated compartments of different thickness)
+    import datetime as _dt
+    p0 = _dt.date(y, 4, 20)
+    thin = {"type": "custom", "kw": {"dz": [0.05] * 4 + [0.25] * 4}, "layers": [[0.2, 0.10, 0.22, 0.41, 120.0, 100], [1.0, 0.39, 0.54, 0.55, 3.0, 100]]}
+    for crop, d0 in (("Tomato", 30), ("Maize", 70)):
+        scs.append(S(crop, seed=seed + 20 + d0, soil_spec=thin, iwc={"value": ["FC", "FC"], "depth_layer": [1, 2]},
+                     events=[{"date": L.dstr(p0 + _dt.timedelta(days=d0 + k)), "P": 45} for k in range(9)]))
+    scs.append(S("Sorghum", seed=seed + 23, soil_spec=L.LAYERED_SOILS["impeding_uneven"], iwc={"value": ["FC", "FC"], "depth_layer": [1, 2]},
+                 events=[{"date": L.dstr(p0 + _dt.timedelta(days=40 + k)), "P": 60} for k in range(7)]))
     n = 200 if tier == "thorough" else 4
     for i in range(n):
         crop = rnd.choice(L.CAL_CROPS[:12])
@@ -135,5 +145,9 @@ def c04(tier, seed):
         S("Soybean", "SiltClay", seed=seed + 33, field={"bunds": True, "z_bund": 0.12},
           events=wet[:4] + [{"date": "2001/08/10", "P": 140}, {"date": "2001/08/11", "P": 100}, {"date": "2001/08/12", "P": 100}, {"date": "2001/08/13", "P": 90}]),
     ]
+    # net irrigation with a LOW threshold while the roots are still deepening into wetter subsoil (the day's root-zone deficit is tiny: the
+    # reported requirement must not go negative beyond its rounding), on the repository's continental series
+    for yr, soil, smt in (((1987, "Loam", 20), (1987, "SiltClayLoam", 30), (1990, "Loam", 20)) if tier != "thorough" else [(y_, so, t) for y_ in range(1983, 2001, 2) for so, t in (("Loam", 20), ("SiltClayLoam", 30))]):
+        scs.append(L.builtin_scenario("Maize", yr, plant="05/01", file="champion_climate.txt", end=f"{yr}/12/30", soil=soil, irr={"method": 4, "kw": {"NetIrrSMT": smt}}))
     scs += L.diverse(rnd, 200 if tier == "thorough" else 4, focus="no_restrictive") + L.hard_cases(rnd)
     return scs
